@@ -252,3 +252,47 @@ VH_ENTRY vh_test_constraint() {
   }
   VH_END();
 }
+
+// ---- Rules::accumulate_rules: merging the precedence-sorted rule list of a success state into the accumulated list gives the precedence-sorted
+// union (longer sort key first, then the earlier rule; no duplicates) - the order in which findNDoRule tries the rules
+#ifndef LA
+#define LA 2
+#endif
+#ifndef LB
+#define LB 2
+#endif
+static __attribute__((noinline)) bool strictly_sorted(const RuleEntry *b, const RuleEntry *e) {
+  for (unsigned k = 0; k < LA + LB && b != e && b + 1 != e; ++k, ++b) if (!(b[0] < b[1])) return false;
+  return true;
+}
+static __attribute__((noinline)) bool has_rule(const RuleEntry *b, const RuleEntry *e, const Rule *r) {
+  for (unsigned k = 0; k < LA + LB + 1 && b != e; ++k, ++b) if (b->rule == r) return true;
+  return false;
+}
+VH_ENTRY vh_accumulate() {
+  Rule *rules = vh_new<Rule>(NRULES);
+  for (unsigned r = 0; r < NRULES; ++r) { ::new (rules + r) Rule(); rules[r].sort = nondet_u8() & 3; rules[r].preContext = nondet_u8() & 1; }
+  RuleEntry *a = vh_new<RuleEntry>(LA ? LA : 1), *b = vh_new<RuleEntry>(LB ? LB : 1);
+#ifdef AIDX      /* which rules the two lists name is given by the query (symbolic entries make every store into the 256-entry merge buffer a case split:
+                    no verdict in 240 s); the sort keys, which decide the order, stay arbitrary */
+  { static const unsigned ai[] = {AIDX, 0}, bi[] = {BIDX, 0};
+    for (unsigned i = 0; i < LA; ++i) a[i].rule = &rules[ai[i]];
+    for (unsigned i = 0; i < LB; ++i) b[i].rule = &rules[bi[i]]; }
+#else
+  for (unsigned i = 0; i < LA; ++i) { uint8_t k = nondet_u8(); ASSUME(k < NRULES); a[i].rule = &rules[k]; }
+  for (unsigned i = 0; i < LB; ++i) { uint8_t k = nondet_u8(); ASSUME(k < NRULES); b[i].rule = &rules[k]; }
+#endif
+  ASSUME(strictly_sorted(a, a + LA) && strictly_sorted(b, b + LB));          // as readStates leaves each state's list (qsort + distinct entries)
+  State sa, sb; sa.rules = a; sa.rules_end = a + LA; sb.rules = b; sb.rules_end = b + LB;
+  FiniteStateMachine::Rules *rs = vh_new<FiniteStateMachine::Rules>();
+  rs->m_begin = rs->m_rules; rs->m_end = rs->m_rules;                       // Rules::Rules() / clear()
+  rs->accumulate_rules(sa);
+  rs->accumulate_rules(sb);
+  const RuleEntry *ob = rs->begin(), *oe = rs->end();
+  ASSERT(oe - ob <= LA + LB && ob >= rs->m_rules && oe <= rs->m_rules + 2 * FiniteStateMachine::MAX_RULES, "result inside the rule buffer");
+  ASSERT(strictly_sorted(ob, oe), "candidate rules in precedence order: longer sort key first, then the earlier rule, no duplicates");
+  for (unsigned i = 0; i < LA; ++i) ASSERT(has_rule(ob, oe, a[i].rule), "every rule of the first state is a candidate");
+  for (unsigned i = 0; i < LB; ++i) ASSERT(has_rule(ob, oe, b[i].rule), "every rule of the second state is a candidate");
+  for (unsigned k = 0; k < LA + LB; ++k) if (ob + k < oe) ASSERT(has_rule(a, a + LA, ob[k].rule) || has_rule(b, b + LB, ob[k].rule), "nothing else is a candidate");
+  VH_END();
+}
